@@ -206,11 +206,14 @@ Post(e, s, was, sas1, kern1) ==
 
 UseTrig(kind) == kind \in Triggers /\ trig > 0 /\ trig' = trig - 1 /\ UNCHANGED <<dups, loss, adv>>
 
-\* ikesacontroller.py:84-109: re-use the first listed IKE_SA (2 endpoints: every IKE_SA is with the peer) or create one
+\* ikesacontroller.py process_acquire: re-use the first listed IKE_SA with the peer that still takes new work (2 endpoints: every IKE_SA is with the peer) -
+\* an IKE_SA that has been rekeyed or is being deleted does not: its successor, or a new IKE_SA, serves the ACQUIRE - or create one
+ClosingStates == {"REKEYED", "DEL_AFTER_REKEY_IKE_SA_REQ_SENT", "DEL_IKE_SA_REQ_SENT", "DELETED"}
+UsableIdx(e) == {i \in 1..Len(table[e]) : sas[table[e][i]].st \notin ClosingStates}
 CtlAcquire(e) ==
   /\ UseTrig("acquire")
-  /\ LET exists == table[e] # <<>>
-         s  == IF exists THEN table[e][1] ELSE <<e, nspi[e]>>
+  /\ LET exists == UsableIdx(e) # {}
+         s  == IF exists THEN table[e][CHOOSE i \in UsableIdx(e) : \A j \in UsableIdx(e) : i <= j] ELSE <<e, nspi[e]>>
          S0 == IF exists THEN sas[s] ELSE BlankSa(TRUE, Zero, "INITIAL")
          n  == IF exists THEN nspi[e] ELSE nspi[e] + 1
          r  == SaAcquire(S0, e, s, n)
